@@ -809,7 +809,7 @@ SyntaxVisitor::Action TypeChecker::visitFunctionDefinition(
 
 SyntaxVisitor::Action TypeChecker::visitExtGNU_Attribute(const ExtGNU_AttributeSyntax*)
 {
-    return Action::Quit;
+    return Action::Skip;
 }
 
 /* Initializers */
@@ -829,7 +829,7 @@ SyntaxVisitor::Action TypeChecker::visitExpressionInitializer(
 SyntaxVisitor::Action TypeChecker::visitBraceEnclosedInitializer(
         const BraceEnclosedInitializerSyntax* node) {
     // TODO
-    return Action::Quit;
+    return Action::Skip;
 }
 
 //-------------//
